@@ -648,6 +648,9 @@ func (w *worker[T, JobType]) Pause() error {
 	switch s := w.status.Load(); s {
 	case running:
 		w.status.Store(paused)
+		// A WaitUntilFinished caller parked while the worker was running from now on only waits for
+		// the in-flight jobs: if there are none, no completion will ever wake it up
+		w.releaseWaiters(w.curProcessing.Load())
 	case paused, stopped:
 		return nil
 	default:
